@@ -39,7 +39,7 @@ type BinaryQuantizerParamaters struct {
 }
 
 func (b BinaryQuantizerParamaters) Validate() error {
-	if b.Threshold == nil && (b.TriggerThreshold < 0 || b.TriggerThreshold > 50000) {
+	if b.TriggerThreshold < 0 || b.TriggerThreshold > 50000 {
 		return fmt.Errorf("triggerThreshold must be between 0 and 50000, got %d", b.TriggerThreshold)
 	}
 	if b.DistanceMetric != DistanceHamming && b.DistanceMetric != DistanceJaccard {
